@@ -216,13 +216,16 @@ class Case:
             nt = tn.num_tensors
             kind = r.choice(["contract", "contract", "contract_opt", "strip", "xor_all", "tags_all", "cumulative", "to_dense",
                              "norm", "linop", "linop", "trace", "partial", "inplace", "strip_tid", "equalize", "distribute",
-                             "rshift", "structured", "matmul", "overlap", "contract_get", "select_all"])
+                             "rshift", "structured", "matmul", "overlap", "contract_get", "select_all", "overlap2", "scaled", "isel"])
             outer = list(tn.outer_inds())
             # a label on three or more axes (or twice on one tensor) makes this a 'hyper' network: quimb then
             # requires the output labels to be given explicitly, so only routes that take them are asked
             hyper = any(sum(inds.count(x) for inds, _ in self.net0) >= 3 for x in self.labels) or \
                 any(len(set(inds)) != len(inds) for inds, _ in self.net0)
             if hyper and kind not in ("contract", "contract_opt", "strip", "tags_all", "to_dense", "linop", "select_all"):
+                continue
+            if kind in ("overlap2", "scaled", "isel"):
+                self.extra_routes(kind)
                 continue
             if kind == "contract":
                 out = self.random_out()
@@ -404,6 +407,96 @@ class Case:
                 self.route("select(ALL,with_exponent).contract", out,
                            lambda: tn.select("ALL", with_exponent=True).contract(all, output_inds=out))
 
+    def extra_routes(self, kind):
+        """routes judged by their own clauses: overlap with a second network, scalar multiples /
+        negation / conjugation of the network, selecting one value of a label"""
+        import quimb.tensor as qtn
+
+        r = self.rng
+        tn = self.tn
+        out = list(self.outer0)
+        cplx = np.dtype(self.dtype).kind == "c"
+        if kind == "overlap2":
+            # a second network over the same outer labels (two tensors joined by a private bond)
+            if not out:
+                return
+            k = r.randint(0, len(out))
+            la, lb = out[:k], out[k:]
+            bd = r.choice([1, 2])
+            A = qtn.Tensor(self._rand([tn.ind_size(x) for x in la] + [bd], cplx).astype(self.dtype), inds=la + ["__ob"], tags="OA")
+            B = qtn.Tensor(self._rand([bd] + [tn.ind_size(x) for x in lb], cplx).astype(self.dtype), inds=["__ob"] + lb, tags="OB")
+            other = qtn.TensorNetwork([A, B])
+            eo = r.choice([0, 0, 1, -1])
+            other.exponent = float(eo)
+            sc = max(0, -(self.exp10 + eo)) - self.scale
+            rec = {"ev": "overlap2", "name": "overlap(other)", "out": out, "result": [], "scale": self.scale + max(sc, 0), "exc": "",
+                   "exp_other": eo,
+                   "other": [{"inds": list(i), "shape": [int(d) for d in a.shape], "data": snap_garray(a)} for i, a in tn_tensors(other)]}
+            try:
+                v = tn.overlap(other)
+                rec["result"] = snap_garray(np.asarray(v).reshape(-1), self.tol, 10.0 ** rec["scale"])
+                rec["_mag"] = abs(complex(v)) * 10.0 ** rec["scale"]
+            except Exception as ex:  # noqa
+                rec["exc"] = type(ex).__name__; rec["excmsg"] = str(ex)[:300]
+            self.log(rec)
+        elif kind == "scaled":
+            c = r.choice([[2, 0], [-1, 0], [3, 0]] + ([[1, 1], [0, 2], [1, -2]] if cplx else []))
+            cc = complex(c[0], c[1]) if cplx else float(c[0])
+            how = r.choice(["multiply", "multiply_", "mul", "rmul", "neg", "conj", "multiply_spread1", "multiply_each0"])
+            conj = False
+            rec = {"ev": "scaled", "name": how, "out": out, "result": [], "scale": self.scale, "exc": "", "c": c, "conj": False}
+            try:
+                if how == "multiply":
+                    t2 = tn.multiply(cc)
+                elif how == "multiply_spread1":
+                    t2 = tn.multiply(cc, spread_over=1)
+                elif how == "multiply_":
+                    t2 = tn.copy(); t2.multiply_(cc)
+                elif how == "mul":
+                    t2 = tn * cc
+                elif how == "rmul":
+                    t2 = cc * tn
+                elif how == "neg":
+                    t2 = -tn if hasattr(tn, "__neg__") else tn * -1
+                    rec["c"] = [-1, 0]
+                elif how == "multiply_each0":
+                    # multiply_each multiplies every tensor: the value picks up c^num_tensors
+                    if tn.num_tensors != 1:
+                        return
+                    t2 = tn.multiply_each(cc)
+                else:
+                    t2 = tn.conj()
+                    rec["c"] = [1, 0]
+                    rec["conj"] = True
+                val = np_denote(tn_tensors(t2), out, t2.exponent)
+                rec["result"] = snap_garray(val, self.tol * 100, 10.0 ** self.scale)
+                rec["_mag"] = float(np.max(np.abs(val), initial=0.0)) * 10.0 ** self.scale
+            except Exception as ex:  # noqa
+                rec["exc"] = type(ex).__name__; rec["excmsg"] = str(ex)[:300]
+            self.log(rec)
+        elif kind == "isel":
+            if getattr(self, "updated", False):
+                return
+            cands = [x for x in self.labels]
+            if not cands:
+                return
+            ix = r.choice(cands)
+            hyper0 = any(sum(inds.count(x) for inds, _ in self.net0) >= 3 for x in self.labels) or \
+                any(len(set(inds)) != len(inds) for inds, _ in self.net0)
+            if hyper0:
+                return
+            k = r.randrange(tn.ind_size(ix))
+            o2 = [x for x in out if x != ix]
+            rec = {"ev": "isel", "name": "isel", "out": o2, "ix": ix, "k": k, "result": [], "scale": self.scale, "exc": ""}
+            try:
+                t2 = tn.isel({ix: k})
+                val = np_denote(tn_tensors(t2), o2, t2.exponent)
+                rec["result"] = snap_garray(val, self.tol, 10.0 ** self.scale)
+                rec["_mag"] = float(np.max(np.abs(val), initial=0.0)) * 10.0 ** self.scale
+            except Exception as ex:  # noqa
+                rec["exc"] = type(ex).__name__; rec["excmsg"] = str(ex)[:300]
+            self.log(rec)
+
     def any_zero_tensor(self):
         return any(not np.any(np.abs(np.asarray(t.data)) > 1e-12) for t in self.tn.tensors)
 
@@ -507,7 +600,7 @@ def run(ctx):
         raise MachineryError("model self-test: pre-fix routes must violate RouteExact")
     ctx.extra["model_selftest"] = "routes as before the fixes (exponent dropped by contract_tags' early return and by TNLinearOperator) violate RouteExact"
 
-    ncases, nroutes = (90, 10) if quick else (700, 16)
+    ncases, nroutes = (160, 10) if quick else (900, 16)
     dtypes = ["float64", "complex128", "float32", "complex64"]
     recs = []
     for k in range(ncases):
